@@ -13,7 +13,7 @@ Rec == ndJsonDeserialize(IOEnv.TRACE)
 VARIABLES l, st
 vars == <<l, st>>
 
-StInit == [last |-> <<>>, count |-> 0, run |-> RunInit, lastKey |-> <<>>, cfgs |-> {}, ptypes |-> {}]
+StInit == [last |-> <<>>, count |-> 0, run |-> RunInit, lastKey |-> <<>>, cfgs |-> {}, ptypes |-> {}, threads |-> <<>>]
 
 TraceInit == l = 1 /\ st = StInit
 
@@ -73,6 +73,19 @@ QuintMapPin == Stateless("quintmappin", QuintMapOK(E) /\ QuintMapPinOK(E))
 
 Call       == Stateless("call", CallOK(E))
 
+\* st.threads: sequence (indexed by model thread number) of <<>> or [inst, face, sph]
+ThreadInfo(k) == IF k <= Len(st.threads) THEN st.threads[k] ELSE <<>>
+OtherInsts(k) == {st.threads[j].inst : j \in {i \in 1..Len(st.threads) : i # k /\ st.threads[i] # <<>>}}
+SetThread(k, v) == [j \in 1..(IF k > Len(st.threads) THEN k ELSE Len(st.threads)) |-> IF j = k THEN v ELSE ThreadInfo(j)]
+ProjStep   == /\ IsEvent("projstep")
+              /\ LET ok == ProjStepOK(E, ThreadInfo(E.thread), OtherInsts(E.thread))
+                 IN /\ Judge(ok)
+                    /\ st' = [st EXCEPT !.threads = SetThread(E.thread, [inst |-> E.instance_after, face |-> SetOfSeq(E.face_after),
+                                                                         sph |-> SetOfSeq(E.sph_after)])]
+Pair       == Stateless("pair", PairOK(E))
+Purity     == Stateless("purity", PurityOK(E))
+Instances  == Stateless("instances", InstancesOK(E))
+
 TraceNext ==
   \/ Reset \/ Codec \/ DecodeEv \/ HexFmtEv \/ HexParseEv
   \/ SortedBlock \/ AncPair \/ RunBlock
@@ -80,6 +93,7 @@ TraceNext ==
   \/ Uncompact \/ Compact8 \/ Compact10 \/ CompactPair
   \/ Anchors \/ AnchorsPin \/ AnchorsEnd \/ RelConfig \/ RelFact \/ CoverFact \/ RelEnd \/ ChildGeom
   \/ QuintMap \/ QuintMapPin \/ Call
+  \/ ProjStep \/ Pair \/ Purity \/ Instances
 
 TraceSpec == TraceInit /\ [][TraceNext]_vars
 
